@@ -12,6 +12,7 @@ import (
 	"sort"
 	"strconv"
 	"testing"
+	"testing/cryptotest"
 	"time"
 
 	"verif/simrt"
@@ -30,6 +31,9 @@ type Harness struct {
 	// Signature maps a violation to the stable signature used for known-finding matching
 	// (default: the oracle id).
 	Signature func(v *simrt.Violation) string
+	// SeedCrypto makes crypto/rand deterministic per run (seeded by one tape entry), for
+	// harnesses in which random keys or nonces influence what the run observes.
+	SeedCrypto bool
 	// NonTrivial overrides the default rule (a context switch or an injected fault happened).
 	NonTrivial func(res *simrt.Result) bool
 	// Describe renders a sample of what a run looked like (for evidence), optional.
@@ -131,6 +135,9 @@ func (h *Harness) sig(v *simrt.Violation) string {
 }
 
 func (h *Harness) runOnce(t *testing.T, src simrt.Source, tier string, record bool) simrt.Result {
+	if h.SeedCrypto {
+		cryptotest.SetGlobalRandom(t, uint64(src.Choose(1<<30, "cryptoseed")))
+	}
 	return simrt.Execute(t, src, h.configure(record), func(s *simrt.Sim) { h.Body(s, tier) })
 }
 
